@@ -146,6 +146,7 @@ def run(res, tier, seed, search):
     if search:
         nk, reps = nk * 3, reps * 3
     kernel_level(res, rng, nk)
+    dk.check_init_kernels(res, rng, 15 if tier == "quick" else 150)
     combos = [("euclidean", "dense32"), ("cosine", "csr"), ("manhattan", "dense32"), ("hellinger", "dense32"), ("jaccard", "csr")]
     pick = [combos[(seed + i) % len(combos)] for i in range(2 if tier == "quick" else len(combos))]
     for metric, kind in pick:
